@@ -11,7 +11,8 @@ Why(e) == IF MustReject(e.vec) /\ e.decision # "rejected" THEN "invalid configur
           ELSE IF MustAccept(e.vec) /\ e.decision # "accepted" THEN "valid configuration (or defaults) rejected"
           ELSE IF e.decision = "rejected" /\ ~e.diagnostic THEN "rejected without a diagnostic"
           ELSE IF e.decision = "accepted" /\ ~ColoursOK(e.colours) THEN "accepted configuration yields malformed colour codes"
-          ELSE IF ~RunOK(e.vec, e.decision, e.diagnostic, e.steps, ColoursOK(e.colours)) THEN "accepted configuration crashed later"
+          ELSE IF e.decision = "accepted" /\ e.timeout_ms < 0 THEN "accepted configuration yields a negative timeout"
+          ELSE IF ~RunOK(e.vec, e.decision, e.diagnostic, e.steps, ColoursOK(e.colours), e.timeout_ms) THEN "accepted configuration crashed later"
           ELSE ""
 Init == l = 1 /\ bad = <<>>
 Step == /\ l <= Len(Log) /\ l' = l + 1
